@@ -10,14 +10,23 @@ verus! {
 
 pub enum LdapError { UnknownScheme(String), MismatchedStreamType, Tls(u8), Recv, Other(u8) }
 pub type Result<T> = core::result::Result<T, LdapError>;
-pub struct TlsConnector { pub accept_invalid_certs: bool, pub custom: bool }
-pub struct TlsBuilder { pub accept_invalid_certs: bool }
+// native_tls::TlsConnectorBuilder: the knobs that weaken what the handshake checks (all off by default)
+pub struct TlsConnector { pub accept_invalid_certs: bool, pub accept_invalid_hostnames: bool, pub no_built_in_roots: bool, pub no_sni: bool, pub custom: bool }
+pub struct TlsBuilder { pub accept_invalid_certs: bool, pub accept_invalid_hostnames: bool, pub no_built_in_roots: bool, pub no_sni: bool }
 impl TlsConnector {
-    #[verifier::external_body] pub fn builder() -> (r: TlsBuilder) ensures !r.accept_invalid_certs { unimplemented!() }
+    #[verifier::external_body] pub fn builder() -> (r: TlsBuilder) ensures !r.accept_invalid_certs, !r.accept_invalid_hostnames, !r.no_built_in_roots, !r.no_sni { unimplemented!() }
 }
 impl TlsBuilder {
-    #[verifier::external_body] pub fn danger_accept_invalid_certs(&mut self, b: bool) -> (r: &mut TlsBuilder) ensures final(self).accept_invalid_certs == b, *final(r) == *final(self) { unimplemented!() }
-    #[verifier::external_body] pub fn build(&self) -> (r: core::result::Result<TlsConnector, u8>) ensures r matches Ok(c) && c.accept_invalid_certs == self.accept_invalid_certs && !c.custom { unimplemented!() }
+    #[verifier::external_body] pub fn danger_accept_invalid_certs(&mut self, b: bool) -> (r: &mut TlsBuilder)
+        ensures *final(self) == (TlsBuilder { accept_invalid_certs: b, ..*old(self) }), *final(r) == *final(self) { unimplemented!() }
+    #[verifier::external_body] pub fn danger_accept_invalid_hostnames(&mut self, b: bool) -> (r: &mut TlsBuilder)
+        ensures *final(self) == (TlsBuilder { accept_invalid_hostnames: b, ..*old(self) }), *final(r) == *final(self) { unimplemented!() }
+    #[verifier::external_body] pub fn disable_built_in_roots(&mut self, b: bool) -> (r: &mut TlsBuilder)
+        ensures *final(self) == (TlsBuilder { no_built_in_roots: b, ..*old(self) }), *final(r) == *final(self) { unimplemented!() }
+    #[verifier::external_body] pub fn use_sni(&mut self, b: bool) -> (r: &mut TlsBuilder)
+        ensures *final(self) == (TlsBuilder { no_sni: !b, ..*old(self) }), *final(r) == *final(self) { unimplemented!() }
+    #[verifier::external_body] pub fn build(&self) -> (r: core::result::Result<TlsConnector, u8>) ensures r matches Ok(c) && c.accept_invalid_certs == self.accept_invalid_certs && c.accept_invalid_hostnames == self.accept_invalid_hostnames
+            && c.no_built_in_roots == self.no_built_in_roots && c.no_sni == self.no_sni && !c.custom { unimplemented!() }
 }
 pub struct StdTcp { pub id: int }
 impl StdTcp { #[verifier::external_body] pub fn set_nonblocking(&self, b: bool) -> (r: Result<()>) { unimplemented!() } }
@@ -56,8 +65,17 @@ pub fn verif_host_port(h: &str, port: u16) -> (r: String) ensures r@ == host_por
 #[verifier::external_body]
 pub fn verif_string_of(s: &str) -> (r: String) ensures r@ == s@ { unimplemented!() }
 // a TLS session: over which TCP stream, for which server name, verified or not (ghost record of the handshake)
-pub struct TlsStream { pub over: TcpStream, pub server_name: Seq<char>, pub verified: bool, pub custom_connector: bool }
-pub uninterp spec fn handshake_ok(tcp: int, name: Seq<char>, verify: bool) -> bool;   // prophecy: the handshake succeeds
+pub struct TlsStream { pub over: TcpStream, pub server_name: Seq<char>, pub by: TlsConnector }
+impl TlsStream {
+    // the certificate chain was validated against the built-in roots, and the certificate was checked against the server name
+    pub open spec fn verified(self) -> bool { !self.by.accept_invalid_certs && !self.by.no_built_in_roots }
+    pub open spec fn name_checked(self) -> bool { !self.by.accept_invalid_certs && !self.by.accept_invalid_hostnames }
+}
+pub uninterp spec fn handshake_ok(tcp: int, name: Seq<char>, c: TlsConnector) -> bool;   // prophecy: the handshake succeeds
+// the connector the library builds itself: everything at its default except, on request, certificate validation
+pub open spec fn default_connector(no_tls_verify: bool) -> TlsConnector {
+    TlsConnector { accept_invalid_certs: no_tls_verify, accept_invalid_hostnames: false, no_built_in_roots: false, no_sni: false, custom: false }
+}
 pub struct TokioTlsConnector { pub c: TlsConnector }
 pub struct ConnectFut { pub c: TlsConnector, pub name: Ghost<Seq<char>>, pub tcp: TcpStream }
 impl TokioTlsConnector {
@@ -68,8 +86,8 @@ pub struct NativeTlsError { pub k: u8 }
 impl ConnectFut {
     #[verifier::external_body]
     pub fn verif_await(self) -> (r: core::result::Result<TlsStream, NativeTlsError>)
-        ensures r is Ok <==> handshake_ok(self.tcp.id, self.name@, !self.c.accept_invalid_certs),
-            r matches Ok(t) ==> t == (TlsStream { over: self.tcp, server_name: self.name@, verified: !self.c.accept_invalid_certs, custom_connector: self.c.custom }),
+        ensures r is Ok <==> handshake_ok(self.tcp.id, self.name@, self.c),
+            r matches Ok(t) ==> t == (TlsStream { over: self.tcp, server_name: self.name@, by: self.c }),
     { unimplemented!() }
 }
 // idiom: `.map_err(LdapError::from)` (thiserror's From<native_tls::Error>): Ok stays, an error stays an error
@@ -87,7 +105,7 @@ impl LdapConnAsyncT {
 //@lift name=create_connector file=src/conn.rs fn=create_connector
 //@ ret r
 //@ spec
-    ensures r.accept_invalid_certs == settings.no_tls_verify, !r.custom, //# C17.certificate_verification_is_disabled_only_when_explicitly_asked_for
+    ensures r == default_connector(settings.no_tls_verify), //# C17.certificate_verification_is_disabled_only_when_explicitly_asked_for_and_nothing_else_is_weakened
 //@end
 
 //@lift name=create_tls_stream file=src/conn.rs fn=create_tls_stream nth=1
@@ -100,8 +118,8 @@ impl LdapConnAsyncT {
         // the handshake runs over the given TCP stream, for the given host name; the certificate is verified unless the
         // settings carry a custom connector (then that connector decides) or no_tls_verify
         r matches Ok(t) ==> t.over == stream && t.server_name == hostname@, //# C17.handshake_is_for_the_urls_host_over_the_connections_own_socket
-        (settings.connector is None) ==> (r matches Ok(t) ==> t.verified == !settings.no_tls_verify), //# C17.server_certificate_is_verified_unless_verification_was_explicitly_disabled
-        (settings.connector is None) ==> (r is Ok <==> handshake_ok(stream.id, hostname@, !settings.no_tls_verify)), //# C17.a_failed_handshake_is_an_error
+        (settings.connector is None) ==> (r matches Ok(t) ==> t.by == default_connector(settings.no_tls_verify)), //# C17.server_certificate_is_verified_unless_verification_was_explicitly_disabled
+        (settings.connector is None) ==> (r is Ok <==> handshake_ok(stream.id, hostname@, default_connector(settings.no_tls_verify))), //# C17.a_failed_handshake_is_an_error
 //@end
 }
 
@@ -111,8 +129,23 @@ pub enum ConnType { Tcp(TcpStream), Tls(TlsStream) }
 pub struct Codec { pub g: u8 }
 // the framed transport: which stream, and whether its read buffer is empty (a fresh Framed) -- ghost
 pub struct Framed { pub io: ConnType, pub codec: Codec, pub fresh_buffers: bool }
-pub struct Parts { pub io: ConnType, pub codec: Codec }
-impl Framed { #[verifier::external_body] pub fn into_parts(self) -> (r: Parts) ensures r.io == self.io, r.codec == self.codec { unimplemented!() } }
+// tokio_util::codec::FramedParts: the buffers of the old framed stream travel with it; what the read buffer holds after the
+// StartTLS exchange is the peer's choice (nothing is known about it here)
+pub struct BytesMut { pub data: Ghost<Seq<u8>> }
+pub struct Parts { pub io: ConnType, pub codec: Codec, pub read_buf: BytesMut, pub write_buf: BytesMut }
+pub type FramedParts = Parts;
+impl Parts {
+    #[verifier::external_body] pub fn new<I>(io: ConnType, codec: Codec) -> (r: Parts) ensures r.io == io, r.codec == codec, r.read_buf.data@.len() == 0, r.write_buf.data@.len() == 0 { unimplemented!() }
+}
+impl Framed {
+    #[verifier::external_body] pub fn into_parts(self) -> (r: Parts) ensures r.io == self.io, r.codec == self.codec { unimplemented!() }
+    #[verifier::external_body] pub fn from_parts(p: Parts) -> (r: Framed) ensures r.io == p.io, r.codec == p.codec, r.fresh_buffers == (p.read_buf.data@.len() == 0) { unimplemented!() }
+    #[verifier::external_body] pub fn new(io: ConnType, codec: Codec) -> (r: Framed) ensures r.io == io, r.codec == codec, r.fresh_buffers { unimplemented!() }
+}
+pub mod tokio_util { pub mod codec { pub use crate::FramedParts; pub use crate::Framed; } }
+pub type RequestId = i32;
+pub struct Tag { pub g: u8 }
+pub struct MaybeControls { pub g: u8 }
 impl Codec { #[verifier::external_body] pub fn framed(self, io: ConnType) -> (r: Framed) ensures r.io == io, r.codec == self, r.fresh_buffers { unimplemented!() } }
 pub struct LdapConnAsync { pub stream: Framed, pub id: int }
 pub uninterp spec fn pair_id(ctype: ConnType) -> int;
@@ -179,7 +212,8 @@ pub open spec fn want_host(url: &Url) -> &'static str { match url.host_of() { So
         // host name, with an EMPTY read buffer (nothing received before the handshake is interpreted afterwards)
         (want_ldaps(url) || want_starttls(url, settings0)) ==> (r matches Ok(p) ==> (
             p.0.stream.io matches ConnType::Tls(t) && t.server_name == want_host(url)@ && p.0.stream.fresh_buffers && p.1.has_tls
-            && (settings0.connector is None ==> (t.verified == !settings0.no_tls_verify && handshake_ok(t.over.id, want_host(url)@, !settings0.no_tls_verify)))
+            && (settings0.connector is None ==> (t.by == default_connector(settings0.no_tls_verify) && handshake_ok(t.over.id, want_host(url)@, t.by)
+                && (!settings0.no_tls_verify ==> t.verified() && t.name_checked())))
             && (if settings0.std_stream is None { !t.over.pre_opened && t.over.peer == host_port_of(want_host(url), want_port(url)) } else { t.over.pre_opened }))), //# C17.a_handle_obtained_with_tls_requested_runs_over_verified_tls_with_an_empty_read_buffer
         want_ldaps(url) ==> (r matches Ok(p) ==> p.1.issued@.len() == 0), //# C17.ldaps_sends_nothing_before_the_handshake
         want_starttls(url, settings0) ==> (r matches Ok(p) ==> (p.1.issued@ == seq![Op::StartTls]
